@@ -7,8 +7,10 @@ import (
 	"os"
 	"path/filepath"
 	"runtime"
+	"sort"
 	"strconv"
 	"strings"
+	"sync"
 	"time"
 
 	"gosmt/sym"
@@ -17,13 +19,14 @@ import (
 )
 
 type Unit struct {
-	Package   string            `json:"package"`
-	Dir       string            `json:"dir"`
-	Files     []string          `json:"files"`
-	Entries   []Entry           `json:"entries"`
-	Redirects map[string]string `json:"redirects"`
-	Tests     bool              `json:"tests"`
-	Native    []string          `json:"native_files"`
+	Package         string            `json:"package"`
+	Dir             string            `json:"dir"`
+	Files           []string          `json:"files"`
+	Entries         []Entry           `json:"entries"`
+	Redirects       map[string]string `json:"redirects"`
+	Tests           bool              `json:"tests"`
+	Native          []string          `json:"native_files"`
+	ParallelEntries int               `json:"parallel_entries"`
 }
 
 type checkOpts struct {
@@ -89,6 +92,11 @@ func runUnit(spec *Spec, o *checkOpts, openKnown map[string]bool, openList []Kno
 		}
 	}
 
+	type job struct {
+		e   Entry
+		cfg TierCfg
+	}
+	var jobs []job
 	for _, e := range spec.Entries {
 		if o.only != "" && e.Func != o.only {
 			continue
@@ -100,44 +108,98 @@ func runUnit(spec *Spec, o *checkOpts, openKnown map[string]bool, openList []Kno
 		if cfg.Skip {
 			continue
 		}
+		if len(cfg.Sets) == 0 {
+			jobs = append(jobs, job{e, cfg})
+			continue
+		}
+		for _, set := range cfg.Sets {
+			c := cfg
+			c.Params = map[string]int64{}
+			for k, v := range cfg.Params {
+				c.Params[k] = v
+			}
+			var label []string
+			for k, v := range set {
+				c.Params[k] = v
+			}
+			keys := make([]string, 0, len(set))
+			for k := range set {
+				keys = append(keys, k)
+			}
+			sort.Strings(keys)
+			for _, k := range keys {
+				label = append(label, fmt.Sprintf("%s=%d", k, set[k]))
+			}
+			c.Label = strings.Join(label, ",")
+			jobs = append(jobs, job{e, c})
+		}
+	}
+	par := spec.ParallelEntries
+	if par < 1 {
+		par = 1
+	}
+	perJob := o.workers / par
+	if perJob < 1 {
+		perJob = 1
+	}
+	var mu sync.Mutex
+	sem := make(chan struct{}, par)
+	var wg sync.WaitGroup
+	for _, j := range jobs {
+		e, cfg := j.e, j.cfg
 		fn := l.harness.Func(e.Func)
 		if fn == nil {
 			ur.broken = append(ur.broken, "entry "+e.Func+" not found")
 			continue
 		}
-		mk := func(probe string, kn map[string]bool) *sym.Program {
-			p := &sym.Program{Prog: l.prog, Harness: l.harness, Redirects: redirects, Params: cfg.Params, Known: kn, Probe: probe,
-				Unwind: cfg.Unwind, MaxSteps: cfg.MaxSteps, MaxDepth: 400, SolverBin: o.solverBin, SolverArg: []string{"-in"}, TimeoutMS: cfg.Timeout, Trace: o.trace}
-			if p.Unwind == 0 {
-				p.Unwind = 64
+		wg.Add(1)
+		sem <- struct{}{}
+		go func() {
+			defer func() { <-sem; wg.Done() }()
+			mk := func(probe string, kn map[string]bool) *sym.Program {
+				p := &sym.Program{Prog: l.prog, Harness: l.harness, Redirects: redirects, Params: cfg.Params, Known: kn, Probe: probe,
+					Unwind: cfg.Unwind, MaxSteps: cfg.MaxSteps, MaxDepth: 400, SolverBin: o.solverBin, SolverArg: []string{"-in"}, TimeoutMS: cfg.Timeout, FastTimeoutMS: 2000, Trace: o.trace, Logic: cfg.Logic}
+				if p.Unwind == 0 {
+					p.Unwind = 64
+				}
+				if p.MaxSteps == 0 {
+					p.MaxSteps = 20_000_000
+				}
+				if p.TimeoutMS == 0 {
+					p.TimeoutMS = 60_000
+				}
+				if p.Params == nil {
+					p.Params = map[string]int64{}
+				}
+				return p
 			}
-			if p.MaxSteps == 0 {
-				p.MaxSteps = 20_000_000
+			res, err := sym.Explore(mk("", openKnown), fn, perJob, cfg.MaxPaths)
+			if err != nil {
+				mu.Lock()
+				ur.broken = append(ur.broken, e.Func+": "+err.Error())
+				mu.Unlock()
+				return
 			}
-			if p.TimeoutMS == 0 {
-				p.TimeoutMS = 60_000
+			er := &evRun{Entry: e, Cfg: cfg, Res: res, Probes: map[string]*sym.EntryResult{}}
+			for id := range res.KnownHit {
+				pr, err := sym.Explore(mk(id, openKnown), fn, perJob, cfg.MaxPaths)
+				if err == nil {
+					er.Probes[id] = pr
+				}
 			}
-			if p.Params == nil {
-				p.Params = map[string]int64{}
+			mu.Lock()
+			defer mu.Unlock()
+			ur.runs = append(ur.runs, er)
+			name := e.Func
+			if cfg.Label != "" {
+				name += "[" + cfg.Label + "]"
 			}
-			return p
-		}
-		res, err := sym.Explore(mk("", openKnown), fn, o.workers, cfg.MaxPaths)
-		if err != nil {
-			ur.broken = append(ur.broken, e.Func+": "+err.Error())
-			continue
-		}
-		er := &evRun{Entry: e, Cfg: cfg, Res: res, Probes: map[string]*sym.EntryResult{}}
-		for id := range res.KnownHit {
-			pr, err := sym.Explore(mk(id, openKnown), fn, o.workers, cfg.MaxPaths)
-			if err == nil {
-				er.Probes[id] = pr
-			}
-		}
-		ur.runs = append(ur.runs, er)
-		fmt.Fprintf(os.Stderr, "[%s] %s: paths=%d kinds=%v queries=%d (sat %d unsat %d unknown %d) solver=%.1fs wall=%.1fs\n",
-			spec.Property, e.Func, res.Paths, res.PathKinds, res.Solver.Queries, res.Solver.Sat, res.Solver.Unsat, res.Solver.Unknown, res.Solver.Time.Seconds(), res.Wall.Seconds())
+			er.Name = name
+			fmt.Fprintf(os.Stderr, "[%s] %s: paths=%d kinds=%v queries=%d (sat %d unsat %d unknown %d) solver=%.1fs wall=%.1fs\n",
+				spec.Property, name, res.Paths, res.PathKinds, res.Solver.Queries, res.Solver.Sat, res.Solver.Unsat, res.Solver.Unknown, res.Solver.Time.Seconds(), res.Wall.Seconds())
+		}()
 	}
+	wg.Wait()
 
 	type cex struct {
 		Entry string
@@ -177,7 +239,7 @@ func runUnit(spec *Spec, o *checkOpts, openKnown map[string]bool, openList []Kno
 		}
 		reached := 0
 		for k, s := range res.Sites {
-			if k == "$branch" || k == "$range" {
+			if strings.HasPrefix(k, "$") {
 				continue
 			}
 			reached += s.Trivial + s.Discharged + s.Violated + s.Unknown
@@ -252,7 +314,7 @@ func runUnit(spec *Spec, o *checkOpts, openKnown map[string]bool, openList []Kno
 
 func unitSpec(spec *Spec, u *Unit) *Spec {
 	s := *spec
-	s.Package, s.Dir, s.Files, s.Entries, s.Redirects, s.Tests, s.Native = u.Package, u.Dir, u.Files, u.Entries, u.Redirects, u.Tests, u.Native
+	s.Package, s.Dir, s.Files, s.Entries, s.Redirects, s.Tests, s.Native, s.ParallelEntries = u.Package, u.Dir, u.Files, u.Entries, u.Redirects, u.Tests, u.Native, u.ParallelEntries
 	return &s
 }
 
@@ -287,7 +349,7 @@ func cmdCheck(args []string) int {
 		return 2
 	}
 	if len(spec.Units) == 0 {
-		spec.Units = []Unit{{Package: spec.Package, Dir: spec.Dir, Files: spec.Files, Entries: spec.Entries, Redirects: spec.Redirects, Tests: spec.Tests, Native: spec.Native}}
+		spec.Units = []Unit{{Package: spec.Package, Dir: spec.Dir, Files: spec.Files, Entries: spec.Entries, Redirects: spec.Redirects, Tests: spec.Tests, Native: spec.Native, ParallelEntries: spec.ParallelEntries}}
 	}
 	if o.workers <= 0 {
 		o.workers = runtime.NumCPU()
